@@ -119,7 +119,7 @@ gen::FuncParams func_params(const Spec& s, uint32_t i) {
   return fp;
 }
 
-#define STEP(expr) do { Error _e = (expr); if (_e != Error::kOk) { out.first_error = _e; return out; } if (env.eh.first != Error::kOk) { out.first_error = env.eh.first; return out; } } while (0)
+#define STEP(expr) do { Error _e = (expr); if (_e != Error::kOk) { out.first_error = _e; return out; } if (env.eh.first != Error::kOk) { SIM_CHECK(false, "c15:error-only-reported-to-handler", "%s returned kOk although error %u was reported to the error handler while it ran: the caller that looks at return values continues with incomplete code", #expr, unsigned(env.eh.first)); out.first_error = env.eh.first; return out; } } while (0)
 
 // Runs the workload on the objects in `env`. The holder must be initialised by the caller? No: init/attach are part
 // of the workload so that their allocation requests are swept as well; `phase` 0 = full run (init + attach + work),
